@@ -196,6 +196,158 @@ func c07Run(line string) string {
 	return "bad-op"
 }
 
+// ---------------------------------------------------------------------------- input pre-filter
+// c07W walks an encoding the way the decoders do (zero-fill semantics, no range checks) only to
+// find the SCALE length prefixes that would be reached, so that the generator can drop inputs that
+// make pkg/scale allocate huge buffers (a 5-byte prefix can ask for 4 GiB).  It is a generator
+// aid, not an oracle: a mistake here only lets a slow case through or drops a harmless one.
+type c07W struct {
+	b   []byte
+	i   int
+	big bool
+}
+
+const c07Cap = 40000
+
+func (w *c07W) byte() (byte, bool) {
+	if w.i >= len(w.b) {
+		return 0, false
+	}
+	w.i++
+	return w.b[w.i-1], true
+}
+
+func (w *c07W) fill(n int) ([]byte, bool) {
+	if w.i >= len(w.b) {
+		return nil, false
+	}
+	out := make([]byte, n)
+	w.i += copy(out, w.b[w.i:])
+	return out, true
+}
+
+func (w *c07W) bytes() ([]byte, bool) {
+	p, ok := w.byte()
+	if !ok {
+		return nil, false
+	}
+	var l uint64
+	switch p % 4 {
+	case 0:
+		l = uint64(p >> 2)
+	case 1:
+		b, ok := w.byte()
+		if !ok {
+			return nil, false
+		}
+		l = (uint64(p) | uint64(b)<<8) >> 2
+	case 2:
+		buf, ok := w.fill(3)
+		if !ok {
+			return nil, false
+		}
+		l = (uint64(p) | uint64(buf[0])<<8 | uint64(buf[1])<<16 | uint64(buf[2])<<24) >> 2
+	default:
+		n := int(p>>2) + 4
+		buf, ok := w.fill(n)
+		if !ok || (n != 4 && n != 8) {
+			return nil, false
+		}
+		for k := n - 1; k >= 0; k-- {
+			l = l<<8 | uint64(buf[k])
+		}
+	}
+	if l > c07Cap {
+		w.big = true
+		return nil, false
+	}
+	if l == 0 {
+		return []byte{}, true
+	}
+	return w.fill(int(l))
+}
+
+// c07Big reports whether decoding b would reach a length prefix above c07Cap.
+func c07Big(b []byte, recurse bool, depth int) bool {
+	w := &c07W{b: b}
+	h, ok := w.byte()
+	if !ok || depth > 40 {
+		return false
+	}
+	var mask byte
+	switch {
+	case h&0xc0 != 0:
+		mask = 0x3f
+	case h&0xe0 == 0x20:
+		mask = 0x1f
+	case h&0xf0 == 0x10:
+		mask = 0x0f
+	default:
+		return false
+	}
+	pkl := int(h & mask)
+	if h&mask == mask {
+		for {
+			x, ok := w.byte()
+			if !ok {
+				return false
+			}
+			pkl += int(x)
+			if pkl > 65535 {
+				return false
+			}
+			if x < 255 {
+				break
+			}
+		}
+	}
+	if n := pkl/2 + pkl%2; n > 0 {
+		if len(w.b)-w.i < n {
+			return false // EOF or mismatch error in the real decoder
+		}
+		w.i += n
+	}
+	isLeaf := h&0xc0 == 0x40 || h&0xe0 == 0x20
+	value := func(hashed bool) bool {
+		if hashed {
+			_, ok := w.fill(32)
+			return ok
+		}
+		_, ok := w.bytes()
+		return ok
+	}
+	if isLeaf {
+		value(h&0xc0 != 0x40)
+		return w.big
+	}
+	bm, ok := w.fill(2)
+	if !ok {
+		return false
+	}
+	if h&0xc0 == 0xc0 {
+		if !value(false) {
+			return w.big
+		}
+	} else if h&0xc0 == 0 {
+		if !value(true) {
+			return w.big
+		}
+	}
+	for i := 0; i < 16; i++ {
+		if (bm[i/8]>>(uint(i)%8))&1 != 1 {
+			continue
+		}
+		c, ok := w.bytes()
+		if !ok {
+			return w.big
+		}
+		if recurse && len(c) < 32 && c07Big(c, true, depth+1) {
+			return true
+		}
+	}
+	return w.big
+}
+
 // ---------------------------------------------------------------------------- generators
 
 func c07Compact(n int) []byte {
@@ -401,15 +553,26 @@ func c07GenRaw(r *vhRng) string {
 	case 5, 6, 7, 8:
 		return "td " + m + " " + vhHex(c07GenNode(r))
 	case 9:
-		return "td " + m + " " + vhHex(r.Bytes(r.Intn(12)))
+		for {
+			b := r.Bytes(r.Intn(12))
+			if !c07Big(b, false, 0) {
+				return "td " + m + " " + vhHex(b)
+			}
+		}
 	default:
 		enc := c07GenNode(r)
 		if len(enc) > 600 {
 			enc = enc[:600]
 		}
-		k := r.Pick(1, 1, 1, 2, 3)
-		for i := 0; i < k; i++ {
-			enc = c07Mutate(r, enc)
+		for try := 0; try < 20; try++ {
+			mut := enc
+			k := r.Pick(1, 1, 1, 2, 3)
+			for i := 0; i < k; i++ {
+				mut = c07Mutate(r, mut)
+			}
+			if !c07Big(mut, false, 0) {
+				return "td " + m + " " + vhHex(mut)
+			}
 		}
 		return "td " + m + " " + vhHex(enc)
 	}
